@@ -54,6 +54,10 @@ def op_junk(st, seed, n, keep):
     return made
 
 
+def op_c17_alternation(st, family, rounds):
+    return c17rec.alternation_record(family, rounds)
+
+
 def op_c17_single(st, recipe, with_c=False):
     return c17rec.single_record(recipe, with_c)
 
